@@ -47,7 +47,9 @@ UNITS = [
         /*@no_error_implies_header_lists_index_blobs*/ r is Ok ==> exists|sorted: Seq<IndexBlob>| #![auto]
               sorted.to_multiset() == index_pack.blobs@.to_multiset() && sorted_by_offset(sorted)
               && PARSE(DEC(data.data@.subrange(data.data@.len() - 4 - hsize_spec(index_pack), data.data@.len() - 4))) == sorted
-              && forall|k: int| 0 <= k < sorted.len() ==> SHA(#[trigger] payload(data.data@, sorted, k)) == sorted[k].id.0,
+              && forall|k: int| 0 <= k < sorted.len() ==> SHA(#[trigger] payload(data.data@, sorted, k)) == sorted[k].id.0
+              // a compressed blob decompresses to exactly the length recorded for it (restore rejects any other length)
+              && forall|k: int| 0 <= k < sorted.len() && sorted[k].location.uncompressed_length is Some ==> (#[trigger] payload(data.data@, sorted, k)).len() == sorted[k].location.uncompressed_length->0,
 """,
          hints=[
              ("before", "let id = index_pack.id;", "    let ghost data0 = data.data@;\n    proof { lemma_start_mono(index_pack.blobs@, 0, index_pack.blobs@.len() as int); }"),
@@ -57,6 +59,7 @@ UNITS = [
         let sorted = blobs@;
         assert(PARSE(DEC(data0.subrange(data0.len() - 4 - hsize_spec(index_pack), data0.len() - 4))) == sorted);
         assert(forall|k: int| 0 <= k < sorted.len() ==> SHA(#[trigger] payload(data0, sorted, k)) == sorted[k].id.0);
+        assert(forall|k: int| 0 <= k < sorted.len() && sorted[k].location.uncompressed_length is Some ==> (#[trigger] payload(data0, sorted, k)).len() == sorted[k].location.uncompressed_length->0);
     }"""),
              ("after", "vsort_blobs(&mut blobs);", """    let ghost body_end = data0.len() - 4 - hsize_spec(index_pack);
     proof {
@@ -84,6 +87,7 @@ UNITS = [
             start_of(blobs@, blobs@.len() as int) == body_end,
             0 <= body_end <= data0.len(),
             forall|j: int| 0 <= j < it.index@ ==> SHA(#[trigger] payload(data0, blobs@, j)) == blobs@[j].id.0,
+            forall|j: int| 0 <= j < it.index@ && blobs@[j].location.uncompressed_length is Some ==> (#[trigger] payload(data0, blobs@, j)).len() == blobs@[j].location.uncompressed_length->0,
 """},
          ),
 ]
@@ -256,6 +260,8 @@ R_DISCARD = Rw(r"(?m)^(\s*)_ = ", r"\1let _ = ", regex=True, count=None, why="`_
 UNITS += [
     Unit(name="indexpack_blob_type", file="crates/core/src/repofile/indexfile.rs", anchor="pub fn blob_type(&self) -> BlobType", ret_name="r",
          wrap_open="impl IndexPack {", wrap_close="}",
+         rewrites=[Rw(r"(?P<r>self\.blobs)\.first\(\)\.map_or\((?P<d>[^,]+), \|(?P<v>\w+)\| (?P<b>[^;{}]*?)\)(?=\s*\}?\s*\Z)", r"(match vfirst_blob(&\g<r>) { Some(\g<v>) => \g<b>, None => \g<d> })", regex=True, optional=True,
+                      why="slice::first + Option::map_or(default, closure) -> match (definitions; both bodies verbatim)")],
          functions=["repofile::indexfile::IndexPack::blob_type"],
          contract="\n    ensures r == pack_type_spec(*self),\n"),
     Unit(name="check_packs", file=CK, anchor="fn check_packs<S: Open>(", ret_name="r",
